@@ -58,6 +58,7 @@ type FuncSpec struct {
 	Assumes   []*Clause // explicit call-site assumptions (listed in the evidence)
 	Props     []*Clause // propagates
 	Tols      []*Clause // tolerates
+	Follows   []*Clause // follows B after A when E
 	Only      []*Clause // failsonly
 	Early     []*Clause // loop N early E: what holds at every return taken from inside loop N (before its normal exit)
 	NoBreak   []*Clause // loop N nobreak: the loop is left only through its head (exhausted) or by a return
@@ -528,6 +529,25 @@ func (ss *SpecSet) parseFile(path string) error {
 				c.Args = append(c.Args, strings.TrimSpace(x))
 			}
 			cur.Only = append(cur.Only, c)
+		case "follows":
+			// follows B after A when E: on every successful path on which a call of A returned with E (over A's result
+			// names, written $name), some call of B is made afterwards
+			f := strings.SplitN(rest, " after ", 2)
+			var g2 []string
+			if len(f) == 2 {
+				g2 = strings.SplitN(f[1], " when ", 2)
+			}
+			if len(f) != 2 || len(g2) != 2 {
+				return fail("follows B after A when E")
+			}
+			c, err := mk("follows", strings.TrimSpace(g2[1]))
+			if err != nil {
+				return err
+			}
+			c.Text = rest
+			c.Ord = len(cur.Follows) + 1
+			c.Args = []string{strings.TrimSpace(f[0]), strings.TrimSpace(g2[0])}
+			cur.Follows = append(cur.Follows, c)
 		case "tolerates":
 			// tolerates EXPR as RESULT from f, g
 			f := strings.SplitN(rest, " from ", 2)
